@@ -50,6 +50,7 @@ class ParseSim:
         for v in self.variants:
             self.by_grammar.setdefault(v["grammar"], []).append(v)
         self.iso = {}
+        self.no_result = []
         self.oracle_spawns = 0
 
     # ---------------------------------------------------------------- inputs
@@ -92,6 +93,18 @@ class ParseSim:
         n = rng.choice([30, 60, 100, 150, 200, 250])
         s = dp["prefix"] + dp["open"] * n + dp["core"] + dp["close"] * (n if rng.coin(850) else n - 1) + dp["suffix"]
         return s
+
+    def gen_long_input(self, rng, gname):
+        """Input of 70..200 KB made of valid items: offsets beyond 2^16 (cache keys, positions) are reached."""
+        lg = self.grammars[gname]["long"]
+        target = rng.choice([4200, 9000, 70000, 100000, 140000, 200000])
+        parts = []
+        size = 0
+        while size < target:
+            it = rng.choice(lg["items"])
+            parts.append(it)
+            size += len(it.encode()) + len(lg["sep"])
+        return lg["prefix"] + lg["sep"].join(parts) + (rng.choice(lg["suffixes"]) if "suffixes" in lg else lg["suffix"])
 
     def related_input(self, rng, gname, prev):
         g = self.grammars[gname]
@@ -283,13 +296,20 @@ class ParseSim:
     def ensure_oracle(self, keys):
         """Isolated results: each job as the only parse of a fresh single-threaded process."""
         missing = sorted(k for k in set(keys) if k not in self.iso)
-        lines = [json.dumps({"variant": k[0], "rule": k[1], "input": k[2], "ctx": list(k[3]), "entry": k[4]}, ensure_ascii=False) for k in missing]
+        # the isolated process gets its own seeded entropy (hash seeds), different from that of any simulation
+        lines = [json.dumps({"variant": k[0], "rule": k[1], "input": k[2], "ctx": list(k[3]), "entry": k[4],
+                             "entropy": derive(self.seed, "iso", *k) >> 2}, ensure_ascii=False) for k in missing]
         outs = self._batch("oracle", lines, ORACLE_TIMEOUT_S, NCPU)
         self.oracle_spawns += len(lines)
         for k, o in zip(missing, outs):
             if "res" not in o:
-                raise HarnessError("isolated run of corpus job %r did not finish: %r" % (k, o))
+                # no answer even in isolation (timeout, abort): kept as a result of its own, so that it is compared like
+                # any other (a memoized variant that hangs where its twin answers is a difference); counted in the evidence
+                self.no_result.append((k[0], k[2][:60], o.get("error")))
+                o = {"res": "NO RESULT (%s)" % o.get("error"), "ctx": [k[3][0], k[3][1], 0]}
             self.iso[k] = o
+        if len(self.no_result) > 20 and len(self.no_result) * 5 > len(self.iso):
+            raise HarnessError("more than a fifth of the isolated corpus jobs gave no result; first: %r" % (self.no_result[:3],))
 
     # ---------------------------------------------------------------- judging
     def mismatches(self, plan, out):
@@ -442,6 +462,15 @@ def run_check(prop, tier, seed, replay_path=None):
                         twin = dict(j)
                         twin["variant"] = ps.by_name[j["variant"]]["grammar"] + "_m0"
                         keys.append(job_key(twin, "noop"))
+        if prop == "C20":
+            for p in plans:
+                for q in p["tasks"]:
+                    for j in q:
+                        eq = ps.grammars[ps.by_name[j["variant"]]["grammar"]].get("equiv")
+                        if eq:
+                            other = dict(j)
+                            other["variant"] = eq + "_m%d" % ps.by_name[j["variant"]]["mask"]
+                            keys.append(job_key(other))
         ps.ensure_oracle(keys)
         outs = ps.run_plans(plans)
         for plan, out in zip(plans, outs):
@@ -498,6 +527,25 @@ def run_check(prop, tier, seed, replay_path=None):
                 samples.append({"seed_index": plan["id"], "policy": plan["policy"], "fresh_threads": plan.get("fresh_threads", False),
                                 "tasks": [[{k: j[k] for k in ("variant", "rule", "input", "entry")} for j in q] for q in plan["tasks"]],
                                 "schedule_prefix": out["choices"][:40], "steps": out["steps"], "switches": out["switches"]})
+        # C20: re-entrancy. A grammar whose @extern function runs a nested parse on the calling thread must give the
+        # same results as its twin that runs the nested parse on a helper thread
+        if prop == "C20":
+            for p in plans:
+                for q in p["tasks"]:
+                    for j in q:
+                        eq = ps.grammars[ps.by_name[j["variant"]]["grammar"]].get("equiv")
+                        if not eq:
+                            continue
+                        a = job_key(j)
+                        if a in twin_checked:
+                            continue
+                        twin_checked.add(a)
+                        other = dict(j)
+                        other["variant"] = eq + "_m%d" % ps.by_name[j["variant"]]["mask"]
+                        ra, rb = ps.iso[a], ps.iso[job_key(other)]
+                        twin_pairs += 1
+                        if ra["res"] != rb["res"]:
+                            violations.append({"twin": {"job": j, "memoized": ra, "plain": rb, "twin_variant": other["variant"], "kind": "reentrant-parse-differs"}})
         # C05 second oracle: isolated result of the memoized variant agrees with its non-memoized twin
         if prop == "C05":
             for p in plans:
@@ -516,6 +564,36 @@ def run_check(prop, tier, seed, replay_path=None):
                             violations.append({"twin": {"job": j, "memoized": ra, "plain": rb, "twin_variant": twin["variant"]}})
         done += n
 
+    # C05: long inputs (offsets beyond 2^16), memoized variants against the non-memoized twin, isolated runs only
+    long_pairs = 0
+    if prop == "C05" and len(violations) < 3:
+        rng = Rng(derive(seed, "c05-long"))
+        per_grammar = 3 if tier == "quick" else 12
+        jobs = []
+        for g in sorted(ps.grammars):
+            if "long" not in ps.grammars[g] or ps.grammars[g]["ctx"]:
+                continue
+            memo_vs = [v for v in ps.by_grammar[g] if v["mask"] != 0]
+            for _ in range(per_grammar):
+                inp = ps.gen_long_input(rng, g)
+                full = max(memo_vs, key=lambda v: v["mask"])
+                for v in {full["name"], rng.choice(memo_vs)["name"]}:
+                    jobs.append({"variant": v, "rule": ps.by_name[v]["exported"][0], "input": inp, "ctx": [0, 0], "entry": "noop"})
+        keys = []
+        for j in jobs:
+            twin = dict(j)
+            twin["variant"] = ps.by_name[j["variant"]]["grammar"] + "_m0"
+            keys += [job_key(j, "noop"), job_key(twin, "noop")]
+        ps.ensure_oracle(keys)
+        for j in jobs:
+            twin = dict(j)
+            twin["variant"] = ps.by_name[j["variant"]]["grammar"] + "_m0"
+            ra, rb = ps.iso[job_key(j, "noop")], ps.iso[job_key(twin, "noop")]
+            long_pairs += 1
+            oka, okb = ra["res"].startswith("Ok("), rb["res"].startswith("Ok(")
+            if oka != okb or (oka and ra["res"] != rb["res"]):
+                violations.append({"twin": {"job": j, "memoized": {"res": ra["res"][:2000]}, "plain": {"res": rb["res"][:2000]}, "twin_variant": twin["variant"]}})
+
     wall_sims = time.time() - t0
     # -------- report violations (replayed once in a fresh process, then minimised)
     nviol = 0
@@ -524,9 +602,9 @@ def run_check(prop, tier, seed, replay_path=None):
         if "twin" in v:
             tw = v["twin"]
             path = write_replay(prop, "%d-twin-%s" % (seed, short_hash(tw["job"])), {
-                "property": prop, "kind": "memoize-subset-differs", "seed": seed, "job": tw["job"],
+                "property": prop, "kind": tw.get("kind", "memoize-subset-differs"), "seed": seed, "job": tw["job"],
                 "twin_variant": tw["twin_variant"], "memoized_result": tw["memoized"], "plain_result": tw["plain"],
-                "note": "isolated result of the memoized variant differs from the non-memoized twin (acceptance or tree)"})
+                "note": "isolated result differs from the twin grammar's (memoized vs plain: acceptance or tree; nested parse on the calling thread vs helper thread: exact)"})
             log("VIOLATION property=%s replay=%s" % (prop, path))
             continue
         plan, sig = v["plan"], v["sig"]
@@ -575,13 +653,17 @@ def run_check(prop, tier, seed, replay_path=None):
                          "staggered_start_sims": None, "fresh_thread_per_job_sims": stats["fresh_thread_sims"]},
         "reach": stats,
         "isolated_oracle_processes": ps.oracle_spawns,
+        "isolated_jobs_without_result": len(ps.no_result),
         "determinism_selftest": det,
         "harness_problems": harness_problems[:5],
         "real_components": ["generated parsers (built from /repo working tree by its own peginator_codegen)", "peginator runtime", "std::thread / real TLS", "IndentedTracer via parse_with_trace"],
         "stubbed_components": ["SimTracer and corpus @extern/@check functions are harness code (the API's user-supplied parts)", "entropy (getrandom) and address layout of worker processes are seeded via the LD_PRELOAD shim"],
     }
+    if prop == "C20":
+        coverage["reentrant_vs_helper_thread_pairs_compared"] = twin_pairs
     if prop == "C05":
         coverage["memoize_twin_pairs_compared"] = twin_pairs
+        coverage["long_input_twin_pairs_compared"] = long_pairs
         coverage["twin_note"] = "subset x input facet: sampled on the fixed corpus only (all 2^k subsets of its memoizable rules), not searched"
     coverage["faults_fired"].pop("staggered_start_sims")
     write_evidence(prop, tier, seed, "exploration", coverage, wall, nviol, [
@@ -619,14 +701,15 @@ def determinism_selftest(ps, make, n):
 
 def replay(ps, prop, path):
     r = json.load(open(path))
-    if r.get("kind") == "memoize-subset-differs":
+    if r.get("kind") in ("memoize-subset-differs", "reentrant-parse-differs"):
         job = r["job"]
         twin = dict(job)
         twin["variant"] = r["twin_variant"]
-        ps.ensure_oracle([job_key(job, "noop"), job_key(twin, "noop")])
-        ra, rb = ps.iso[job_key(job, "noop")], ps.iso[job_key(twin, "noop")]
+        cls = "noop" if r["kind"] == "memoize-subset-differs" else None
+        ps.ensure_oracle([job_key(job, cls), job_key(twin, cls)])
+        ra, rb = ps.iso[job_key(job, cls)], ps.iso[job_key(twin, cls)]
         oka, okb = ra["res"].startswith("Ok("), rb["res"].startswith("Ok(")
-        if oka != okb or (oka and ra["res"] != rb["res"]):
+        if (r["kind"] == "reentrant-parse-differs" and ra["res"] != rb["res"]) or oka != okb or (oka and ra["res"] != rb["res"]):
             log("memoized: %s\nplain:    %s" % (ra["res"], rb["res"]))
             log("VIOLATION property=%s replay=%s" % (prop, path))
             return 1
